@@ -1,4 +1,5 @@
-"""Property oracles over one protocol history (events + the implementation's observations)."""
+"""Property oracles over one protocol history (events + the implementation's observations).
+An oracle with a fifth parameter `mobs` also receives the protocol model's observations of the same history."""
 import ncommon
 
 
@@ -57,6 +58,15 @@ def c06(line, obs, sc, ln):
                 key = [(-sc_, ln[text_of(g)], i) for (sc_, i), g in zip(o["m"], o["d"])]
             if key != sorted(key):
                 out.append(("order", "matches are not ordered by (score desc, length asc, index asc): %s" % ob))
+            # the matches are EXACTLY the matching items among `count` processed (hence published) items: the
+            # count - matches other processed items must all be non-matching published items of the stream
+            if 0 <= o["p"] < len(ncommon.PATTERNS):
+                pub = tr.published.get(s, set())
+                items_s = tr.items.get(s, [])
+                nonmatching = 0 if o["p"] == 0 else sum(1 for i_ in pub if sc.get((o["p"], text_of(items_s[i_]))) is None)
+                if o["c"] - len(o["m"]) > nonmatching:
+                    out.append(("incomplete", "the snapshot counts %d processed items and has %d matches, but only %d published items of the stream do not match the snapshot pattern %r: some processed item that matches is missing from the matches: %s" % (
+                        o["c"], len(o["m"]), nonmatching, ncommon.PATTERNS[o["p"]], ob)))
             if o["c"] < len(o["m"]) or o["c"] > len(tr.items.get(s, [])):
                 out.append(("count", "item count %d is inconsistent with %d matches / %d reserved items: %s" % (o["c"], len(o["m"]), len(tr.items.get(s, [])), ob)))
     return out
@@ -66,14 +76,33 @@ def c12(line, obs, sc, ln):
     out = []
     last = None
     after_restart = None
+    # isolation window: from a restart until a tick can have picked up a run over the NEW stream, i.e. until
+    # the first tick that completes after (a) a tick spawned a run after the restart (the worker lock is held
+    # from that tick's lock acquisition until the run releases it) and (b) that run released the lock.  Inside
+    # the window the snapshot is empty (clear) / exactly what it was at the restart (keep), however many ticks
+    # time out in between.  win = {clear, ref, spawn, unlocked, r}; ref None = keep with unknown reference
+    # (then all observations inside the window must equal the first of them)
+    win = None
     for k, ev, ob, tr in walk(line, obs):
         p = ev.split(" ")
         if p[0] == "restart":
             if p[1] == "1" and last is not None:
                 last = {"p": last["p"], "c": 0, "m": [], "d": [], "inj": 0, "n": 0}
             after_restart = (p[1] == "1", last)
+            if p[1] == "1":
+                ref = last if last is not None else {"p": win["ref"]["p"] if win and win["ref"] else None, "c": 0, "m": []}
+            elif win is not None and win["ref"] is not None:
+                ref = win["ref"]     # a restart inside an open window: the snapshot still is what it was
+            else:
+                ref = last
+            win = {"clear": p[1] == "1", "ref": ref, "spawn": False, "unlocked": False, "r": k}
         if p[0] in ("tick",):
             after_restart = None if after_restart is None else after_restart
+        if win is not None:
+            if p[0] == "ut" and ob == "Ybefore_spawn":
+                win["spawn"] = True
+            elif p[0] == "run" and ob.startswith("Yunlocked") and win["spawn"]:
+                win["unlocked"] = True
         if ob.startswith("O "):
             o = ncommon.parse_obs(ob)
             s = snapshot_stream(tr, o)
@@ -85,10 +114,28 @@ def c12(line, obs, sc, ln):
                     out.append(("clear", "restart(true) did not empty the snapshot immediately: %s" % ob))
                 if not clear and before is not None and (o["p"], o["c"], o["m"]) != (before["p"], before["c"], before["m"]):
                     out.append(("keep", "restart(false) changed the snapshot before any run over the new stream completed: before %s after %s" % (before, ob)))
+            if win is not None and win["ref"] is None:
+                win["ref"] = o
+            elif win is not None and after_restart is None:
+                ref = win["ref"]
+                if (o["c"], o["m"]) != (ref["c"], ref["m"]) or (ref["p"] is not None and o["p"] != ref["p"]):
+                    why = ("no tick has spawned a run since the restart" if not win["spawn"] else
+                           "the first run over the new stream has not released the worker lock yet" if not win["unlocked"] else
+                           "no tick has completed since the first run over the new stream released the worker lock")
+                    old = ""
+                    if s is not None and 0 <= s < tr.stream:
+                        old = " - it contains items of the OLD stream %d (current stream %d)" % (s, tr.stream)
+                    if win["clear"]:
+                        out.append(("clear", "after restart(true) (event %d) the snapshot is not empty any more although no run over the new stream can have been picked up (%s)%s: %s" % (win["r"], why, old, ob)))
+                    else:
+                        out.append(("keep", "after restart(false) (event %d) the snapshot changed although no run over the new stream can have been picked up (%s)%s: at the restart %s now %s" % (
+                            win["r"], why, old, {x: ref[x] for x in ("p", "c", "m")}, ob)))
             last = o
         if p[0] == "ut" and ob.startswith("T") and len(ob) == 3:
             after_restart = None
             last = None
+            if win is not None and win["unlocked"]:
+                win = None
     return out
 
 
@@ -111,6 +158,10 @@ def c19(line, obs, sc, ln):
         p = ev.split(" ")
         if p[0] == "restart":
             last = None
+            if p[1] == "1":
+                # restart(true) empties the snapshot: the status of the tick before it no longer describes
+                # what the next observation sees (it did describe the snapshot the tick returned with)
+                pending = None
         if p[0] == "tick" and ob == "Ybegin":
             pub_at_begin = len(tr.published.get(tr.stream, set()))
             pat_at_begin = tr.pattern
@@ -134,23 +185,7 @@ def c19(line, obs, sc, ln):
     return out
 
 
-def c07(line, obs, sc, ln):
-    """at the end of a history that wound down to quiescence the snapshot equals the from-scratch result"""
-    out = []
-    final = None
-    last_tick = None
-    for k, ev, ob, tr in walk(line, obs):
-        if ev.startswith("ut") and ob.startswith("T") and len(ob) == 3:
-            last_tick = ob
-        if ob.startswith("O "):
-            final = (ncommon.parse_obs(ob), ob)
-    if final is None or last_tick is None or last_tick[2] != "0":
-        return out
-    if any(t["stage"] != 2 for t in tr.pushes.values()):
-        return out
-    o, ob = final
-    items = tr.items.get(tr.stream, [])
-    pat = tr.pattern
+def from_scratch(items, pat, sc, ln):
     exp = []
     for idx, g in enumerate(items):
         s = 0 if pat == 0 else sc.get((pat, text_of(g)))
@@ -158,17 +193,78 @@ def c07(line, obs, sc, ln):
             exp.append((s, idx, ln[text_of(g)]))
     if pat != 0:
         exp.sort(key=lambda t: (-t[0], t[2], t[1]))
-    expm = [(s, i) for s, i, _ in exp]
-    if o["p"] != pat or o["c"] != len(items) or o["m"] != expm:
-        out.append(("converge", "quiescent snapshot differs from the from-scratch result for pattern %r over %d items: expected count %d matches %s, got %s" % (
-            ncommon.PATTERNS[pat], len(items), len(items), expm, ob)))
+    return [(s, i) for s, i, _ in exp]
+
+
+def c07(line, obs, sc, ln):
+    """at the end of a history that wound down to quiescence the snapshot equals the from-scratch result;
+    the same at every quiescent point inside the history: an observation after a tick that reported
+    running=false, when every item reserved in the current stream had been published before that tick began
+    and nothing was reserved, edited or restarted since"""
+    out = []
+    final = None
+    last_tick = None
+    begin = None      # state at the begin of the latest tick: (stream, reserved, all published)
+    quiet = None      # the same, for the latest completed tick if it reported running=false and nothing happened since
+    mid = []          # (observation index, message)
+    for k, ev, ob, tr in walk(line, obs):
+        p0 = ev.split(" ")[0]
+        if p0 == "tick" and ob == "Ybegin":
+            its = tr.items.get(tr.stream, [])
+            begin = (tr.stream, len(its), len(tr.published.get(tr.stream, set())) == len(its))
+            quiet = None
+        if p0 in ("edit", "restart"):
+            quiet = None
+        if ev.startswith("ut") and ob.startswith("T") and len(ob) == 3:
+            last_tick = ob
+            quiet = begin if (ob[2] == "0" and begin is not None and begin[2]) else None
+        if ob.startswith("O "):
+            final = (ncommon.parse_obs(ob), ob, k)
+            if quiet is not None:
+                its = tr.items.get(tr.stream, [])
+                if quiet[0] == tr.stream and quiet[1] == len(its):
+                    o = final[0]
+                    expm = from_scratch(its, tr.pattern, sc, ln)
+                    if o["p"] != tr.pattern or o["c"] != len(its) or o["m"] != expm:
+                        mid.append((k, "quiescent snapshot (observation %d: the preceding tick reported running=false, all %d items of the stream were published before it began, no edit since) differs from the from-scratch result for pattern %r: expected count %d matches %s, got %s" % (
+                            k, len(its), ncommon.PATTERNS[tr.pattern], len(its), expm, ob)))
+    reported = None
+    if not (final is None or last_tick is None or last_tick[2] != "0") and not any(t["stage"] != 2 for t in tr.pushes.values()):
+        o, ob, reported_k = final
+        items = tr.items.get(tr.stream, [])
+        pat = tr.pattern
+        expm = from_scratch(items, pat, sc, ln)
+        if o["p"] != pat or o["c"] != len(items) or o["m"] != expm:
+            reported = reported_k
+            out.append(("converge", "quiescent snapshot differs from the from-scratch result for pattern %r over %d items: expected count %d matches %s, got %s" % (
+                ncommon.PATTERNS[pat], len(items), len(items), expm, ob)))
+    for k, msg in mid[:3]:
+        if k != reported:
+            out.append(("converge", msg))
     return out
 
 
-def c13(line, obs, sc, ln):
+POST_UNLOCK = ("Yunlocked", "Ybefore_notify", "Ydone")
+
+
+def c13(line, obs, sc, ln, mobs=None):
     """a tick that returns running=true is followed by a worker notification issued after the run it
-    refers to has released the lock - unless a later tick (or restart) supersedes it first"""
+    refers to has released the lock - unless a later tick (or restart) supersedes it first.
+    mobs: the protocol model's observations of the same history (lock state at the post-unlock sites)"""
     out = []
+    if mobs is not None:
+        # the run reads the notification flag / notifies / returns only AFTER it has released the worker lock:
+        # at these sites the lock may only be held by somebody else (a later tick, the next queued run), which
+        # the model tracks.  Compared only while implementation and model agree on everything before.
+        evs_ = line.split(";")
+        for k in range(min(len(evs_), len(obs), len(mobs))):
+            if obs[k] != mobs[k]:
+                if evs_[k] == "run" and obs[k].endswith("!locked") and obs[k][:-len("!locked")] == mobs[k] and mobs[k] in POST_UNLOCK:
+                    what = {"Yunlocked": "is about to read the notification flag (run.unlocked)", "Ybefore_notify": "is about to call notify (run.before_notify)",
+                            "Ydone": "has notified / is returning (run.done)"}[mobs[k]]
+                    out.append(("notify_under_lock", "at event %d the background run %s while the worker lock is STILL HELD, and no tick or queued run can hold it at this point of the history "
+                                "(protocol model: lock free): the results are not available to a tick woken by the notification, and a tick(0) racing it reports running without a later wake-up" % (k, what)))
+                break
     evs = line.split(";")
     n = min(len(evs), len(obs))
     for k in range(n):
